@@ -236,6 +236,17 @@ Proof.
   rewrite in_app_iff in A. apply negb_true_iff. apply A. exact Hy.
 Qed.
 
+(* on a ranked heap (a DAG, in particular a tree) whose rank also dominates the new content of
+   the slot, the change is edge-acyclic for every set of registrations *)
+Lemma ranked_edge_acyclic_lemma t rank h rs o fo news :
+  fo <> TA -> ranked rank h -> (forall y, In y news -> rank o < rank y) -> edge_acyclic t h rs o fo news.
+Proof.
+  intros NT R N. split; [exact NT|]. intros kc _ y Hy.
+  destruct (visits t h (snd kc) y o fo) eqn:V; [exfalso|reflexivity].
+  apply (visits_rank t rank h o fo (snd kc) R) in V.
+  destruct Hy as [Hy|Hy]; [pose proof (R o fo y Hy)|pose proof (N y Hy)]; lia.
+Qed.
+
 Lemma matched_keys t h rs o fo k :
   In k (users_on (expected_all t h rs) o fo) <->
   exists g, In (k, g) rs /\ matched t h g (snd k) o fo = true.
